@@ -73,6 +73,9 @@ struct Trace {
     typedef typename real_of<S>::type R;
     std::vector<Vec<S>> x;   // x[k] = k-th iterate, x[0] = initial guess
     std::vector<R> rn;       // rn[k] = norm of the (preconditioned, recursive or true) residual belonging to x[k]
+    std::vector<R> cond;     // BiCGStab only: cond[k] = smallest |(a,b)|/(|a||b|) among the divisors used to produce x[k]
+                             // ((r^,r), (r^,v), (t,s)), and 0 when the intermediate residual s of step k is already (numerically)
+                             // zero; values near 0 mean the recurrence (numerically) breaks down in step k
 };
 
 // ------------------------------------------------------------------ preconditioned CG
@@ -103,30 +106,38 @@ Trace<S> pcg(const Mat<S> &A, const Mat<S> *M, const Vec<S> &b, const Vec<S> &x0
 // ------------------------------------------------------------------ BiCGStab on the preconditioned operator
 template <class S>
 Trace<S> bicgstab(const Sys<S> &s, const Vec<S> &x0, int K) {
+    typedef typename real_of<S>::type R;
     Trace<S> t;
     Vec<S> x = x0, r = s.res(x), rh = r, p = r;
     S rho = dot(rh, r);
-    t.x.push_back(x); t.rn.push_back(nrm2(r));
+    t.x.push_back(x); t.rn.push_back(nrm2(r)); t.cond.push_back(1);
+    auto rel = [](const S &d, R a, R b) { R den = a * b; return den > 0 ? R(std::abs(d)) / den : R(0); };
+    R nrh = nrm2(rh);
     for (int k = 0; k < K; ++k) {
         Vec<S> v = s.B(p);
         S rhv = dot(rh, v);
         if (rhv == S() || rho == S()) break;
+        R cnd = std::min(rel(rho, nrh, nrm2(r)), rel(rhv, nrh, nrm2(v)));
         S alpha = rho / rhv;
         Vec<S> sv = r; axpy(-alpha, v, sv);
         Vec<S> tv = s.B(sv);
         S tt = dot(tv, tv);
-        if (tt == S()) { axpy(alpha, s.lift(p), x); t.x.push_back(x); t.rn.push_back(nrm2(sv)); break; }
-        S omega = dot(tv, sv) / tt;
+        if (tt == S()) { axpy(alpha, s.lift(p), x); t.x.push_back(x); t.rn.push_back(nrm2(sv)); t.cond.push_back(cnd); break; }
+        S ts = dot(tv, sv);
+        cnd = std::min(cnd, rel(ts, nrm2(tv), nrm2(sv)));
+        // s (numerically) zero: the BiCG half of the step already reached the solution, omega = (t,s)/(t,t) is 0/0
+        if (!(nrm2(sv) > R(1e-9) * t.rn[0])) cnd = R(0);
+        S omega = ts / tt;
         Vec<S> d(p.size());
         for (size_t i = 0; i < d.size(); ++i) d[i] = alpha * p[i] + omega * sv[i];
         axpy(S(1), s.lift(d), x);
         r = sv; axpy(-omega, tv, r);
         S rho_new = dot(rh, r);
-        if (omega == S()) { t.x.push_back(x); t.rn.push_back(nrm2(r)); break; }
+        if (omega == S()) { t.x.push_back(x); t.rn.push_back(nrm2(r)); t.cond.push_back(R(0)); break; }
         S beta = (rho_new / rho) * (alpha / omega);
         rho = rho_new;
         for (size_t i = 0; i < p.size(); ++i) p[i] = r[i] + beta * (p[i] - omega * v[i]);
-        t.x.push_back(x); t.rn.push_back(nrm2(r));
+        t.x.push_back(x); t.rn.push_back(nrm2(r)); t.cond.push_back(cnd);
     }
     return t;
 }
